@@ -940,8 +940,8 @@ fn main() {
     rt.block_on(async move {
         let w = Arc::new(World::new(root.clone()).await);
         w.seed().await;
-        // BATCH makes the dispatcher panic inside a spawned task (caught and classed "panic"):
-        // keep stderr quiet from here on
+        // a panic inside dispatch_command (none on the present code; BATCH used to) is caught in a
+        // spawned task and classed "panic": keep stderr quiet from here on
         std::panic::set_hook(Box::new(|_| {}));
         let mut s = Stream::create(&a.out, &stream_name);
         let opts = Arc::new(Opts {
